@@ -34,7 +34,7 @@ RULE = ("histories = one cell space + operations on it. Spaces: OrthogonalMooreG
         "only; two medium ones also through the model). USER-CODE stream (40 per quick run, implementation + oracle only): user Cell "
         "subclasses (falsy while empty + iterable, class-level defaults, extra constructor argument) and user subclasses of every space "
         "class (docstring-only, extra argument, overridden _connect_cells calling super), agents placed, the space deep-copied / pickled "
-        "mid-history, six public entry points for the direct neighbourhood must agree at build and after every copy. non-trivial = build + at least 2 queries with a non-empty answer; "
+        "mid-history, six public entry points for the direct neighbourhood must agree at build and after every copy. `snap` (35% of the query blocks): deepcopy / pickle.dumps / copy.copy of a cell, collection, space, model or agent is made and discarded - the ORIGINAL must stay exactly the geometry (model: Build on a built space). non-trivial = build + at least 2 queries with a non-empty answer; "
         "distinct = SHA1 of the history")
 TRUSTED_BASE = [
     "Coq 8.16.1 kernel (coqc); vm_compute for finite facts over the regenerated tables / translated code and for evaluating the model in the correspondence",
@@ -218,6 +218,18 @@ def _queries(rng, ncells, rmax, n, cells=None):
                 qs.append(["place", rng.randint(1, 4), rng.choice(pool)])
                 qs.append(["agents", rng.randrange(3), c, r, rng.random() < 0.5])
     rng.shuffle(qs)
+    # something reaching the cells is copied / pickled and discarded: the ORIGINAL must stay exactly the geometry's - checked right
+    # away and by the queries that follow (fresh radii and cached ones)
+    if rng.random() < 0.35:
+        pool = list(range(ncells)) if cells is None else list(cells)
+        c = rng.choice(pool) if pool else 0
+        snap = ["snap", rng.choice(["cell", "collection", "space", "space", "model", "agent"]),
+                rng.choice(["deepcopy", "pickle", "copy"]), c]
+        qs.insert(rng.randrange(len(qs) + 1), snap)
+        if pool:
+            for r in {rng.randint(1, rmax), rng.randint(1, rmax)}:
+                qs.append(["nbhd", rng.randrange(3), c, r, rng.random() < 0.5])
+            qs.append(["nbhd", rng.randrange(3), rng.choice(pool), rng.randint(1, rmax), False])
     # repetition: re-ask a few of the earlier queries at the end (answers must not have changed)
     for q in rng.sample(qs, min(len(qs), 3)):
         qs.append(list(q))
@@ -987,6 +999,51 @@ def run_impl(case):
                                                  f"connections, or building it changed the first one"})
                 built = True
                 continue
+            if kind == "snap":
+                # copy / serialise something that reaches the cells and THROW THE RESULT AWAY: the ORIGINAL space must be untouched
+                # (model side: re-reading the connections of the original = Build on a built space, a no-op on the state)
+                import copy as _copy
+                import pickle as _pickle
+                import warnings as _w
+
+                if not built:
+                    obs.append([-2])
+                    ops_for_model.append(["nbhd", 0, -1, 1, False])
+                    continue
+                _, what, how, c0 = op
+                c0 = c0 % len(cells) if cells else 0
+                target = space
+                if cells and what == "cell":
+                    target = cells[c0]
+                elif cells and what == "collection":
+                    target = cells[c0].get_neighborhood(1, True)
+                elif what == "model":
+                    model.space_under_test = space
+                    target = model
+                elif what == "agent" and agents:
+                    target = agents[sorted(agents)[0]]
+                with _w.catch_warnings():
+                    _w.simplefilter("ignore")
+                    if how == "deepcopy":
+                        _copy.deepcopy(target)
+                    elif how == "pickle":
+                        _pickle.dumps(target)
+                    else:
+                        _copy.copy(target)
+                o = []
+                for i, c in enumerate(cells):
+                    o += [-5] + sorted(_key_code(sp["kind"], k) * 1000000 + idx.get(id(v), -1) for k, v in c.connections.items())
+                obs.append(o)
+                ops_for_model.append(["build", conn])
+                now = [[idx.get(id(v), -1) for v in c.connections.values()] for c in cells]
+                if now != conn:
+                    bad = next(i for i in range(len(cells)) if now[i] != conn[i])
+                    failures.append({"key": f"C07/{cls}/copy/original-connections-changed", "op": opi,
+                                     "what": f"{cls} {_descr(sp)}: after {how} of the {what} (result discarded) cell #{bad} of the ORIGINAL "
+                                             f"space is connected to {now[bad]}, before: {conn[bad]}"})
+                else:
+                    _check_connections(sp, space, cells, idx, failures, opi)
+                continue
             if kind == "copy":
                 # user-code stream: continue on a deepcopy / pickle round trip of the whole space (with its agents)
                 import copy as _copy
@@ -996,7 +1053,14 @@ def run_impl(case):
                 ops_for_model.append(op)
                 with _w.catch_warnings():
                     _w.simplefilter("ignore")
-                    space = _copy.deepcopy(space) if op[1] == "deepcopy" else _pickle.loads(_pickle.dumps(space))
+                    new_space = _copy.deepcopy(space) if op[1] == "deepcopy" else _pickle.loads(_pickle.dumps(space))
+                now = [[idx.get(id(v), -1) for v in c.connections.values()] for c in cells]
+                if now != conn:
+                    bad = next(i for i in range(len(cells)) if now[i] != conn[i])
+                    failures.append({"key": f"C07/{cls}/copy/original-connections-changed", "op": opi,
+                                     "what": f"{cls} {_descr(sp)}: after {op[1]} of the space cell #{bad} of the ORIGINAL space is connected "
+                                             f"to {now[bad]}, before: {conn[bad]}"})
+                space = new_space
                 cells = list(space._cells.values())
                 idx = {id(c): i for i, c in enumerate(cells)}
                 conn = [[idx.get(id(v), -1) for v in c.connections.values()] for c in cells]
@@ -1219,6 +1283,8 @@ def coq_case(case):
             ops.append("Cert " + L.lst([f"({L.z(t[0])}, {L.z(t[1])}, {L.z(t[2])})" for t in tris]))
         elif op[0] == "copy":
             continue
+        elif op[0] == "snap":
+            ops.append("Nbhd 0 (-1) 1 false")
         elif op[0] == "place":
             ops.append(f"Place {L.z(op[1])} {L.z(op[2])}")
         elif op[0] == "agents":
